@@ -1095,6 +1095,7 @@ Definition one_rule id st pat params :=
 
 Definition w_rules_F1 := [one_rule "admin" Off [Lit "api"; Lit "admin"] []; one_rule "any" Off [Lit "api"; Wild "p1"] []].
 
+(* superseded by its successor in Part E/F (stated for the current tree); kept, not listed in Properties *)
 Theorem F1_refuted : exists rules p p',
   reenc p p' /\ guard_F1 rules p p' = true /\ guard_F2 p p' = false /\ guard_F3 rules = false /\
   ~ decision_eq (serve pinned rules false "h" p "") (serve pinned rules false "h" p' "").
@@ -1117,6 +1118,7 @@ Qed.
 
 Definition w_rules_F3 := [one_rule "pp" Off [Lit "api"; Wild "p1"] [("p1", PExact "admin")]].
 
+(* superseded by its successor in Part E/F (stated for the current tree); kept, not listed in Properties *)
 Theorem F3_refuted : exists rules p p',
   reenc p p' /\ guard_F1 rules p p' = false /\ guard_F2 p p' = false /\ guard_F3 rules = true /\
   ~ decision_eq (serve pinned rules false "h" p "") (serve pinned rules false "h" p' "").
@@ -1138,6 +1140,7 @@ Definition w_rules_ok :=
 
 (** the hypotheses of [reencoding_invariant] are satisfiable by a request that is
     matched through literal and wildcard segments, with path_params, and accepted *)
+(* superseded by its successor in Part E/F (stated for the current tree); kept, not listed in Properties *)
 Example reencoding_invariant_nonvacuous :
   reenc "/api/users/j%2Fd" "/api/users/%6A%2F%64" /\
   guard_F1 w_rules_ok "/api/users/j%2Fd" "/api/users/%6A%2F%64" = false /\
@@ -1307,6 +1310,7 @@ Qed.
 
 Definition w_rules_F4 := [one_rule "w" Off [Wild "x"; Wild "y"] []].
 
+(* superseded by its successor in Part E/F (stated for the current tree); kept, not listed in Properties *)
 Theorem F4_off_refuted : exists rules p rid cs up,
   enc_slash p = true /\ guard_F4 p = true /\ contains "%2f" p = false /\
   (forall r, In r rules -> r_setting r = Off) /\
@@ -1580,6 +1584,7 @@ Qed.
 Definition w_rules_nd := [one_rule "nd" NoDecode [Lit "files"; CatchAll "rest"] []].
 Definition w_rules_on := [one_rule "on" On [Lit "files"; CatchAll "rest"] []].
 
+(* superseded by its successor in Part E/F (stated for the current tree); kept, not listed in Properties *)
 Example nodecode_on_nonvacuous :
   serve pinned w_rules_nd false "h" "/files/a%2Fb/c%20d" "" =
     Accepted "nd" false [("rest", "a%2Fb/c d")]
@@ -1598,6 +1603,7 @@ Theorem F2_nodecode_refuted :
   decode_keep_slash "a%2fb" = "a%2Fb".
 Proof. splits; vm_compute; reflexivity. Qed.
 
+(* superseded by its successor in Part E/F (stated for the current tree); kept, not listed in Properties *)
 Theorem F5_nodecode_refuted :
   contains "%2f" "/files/x$$$escaped-slash$$$y" = false /\ guard_F5 "/files/x$$$escaped-slash$$$y" = true /\
   (exists up, serve pinned w_rules_nd false "h" "/files/x$$$escaped-slash$$$y" "" = Accepted "nd" false [("rest", "x%2Fy")] up) /\
@@ -2158,11 +2164,6 @@ Proof.
   - simpl in A, B. auto.
 Qed.
 
-(** what [create_url_q] writes into the request line for a `no_decode` rule: the
-    request path as it is, after the rule's prefix rewriting *)
-Definition expected_wire (b : backend) (p : string) : string :=
-  match b_rw b with Some rw => transform_path rw p | None => p end.
-
 Lemma wire_path_nodecode m b host p q :
   wfenc p -> valid_encoded p = true -> is_empty p = false ->
   wfenc (expected_wire b p) -> valid_encoded (expected_wire b p) = true ->
@@ -2236,18 +2237,67 @@ Proof.
     apply wire_path_nodecode; assumption.
 Qed.
 
+(** the lookup finds something whenever a path expression without path_params matches the path as spelled *)
+Lemma in_filter_map_intro {A B} (f : A -> option B) l x y : In x l -> f x = Some y -> In y (filter_map f l).
+Proof.
+  induction l as [|z l IH]; simpl; [contradiction|]. intros [->|H] E.
+  - rewrite E. left; reflexivity.
+  - destruct (f z); [right|]; auto.
+Qed.
+
+Lemma find_exists {A} (f : A -> bool) l x : In x l -> f x = true -> find f l <> None.
+Proof.
+  induction l as [|z l IH]; simpl; [contradiction|]. intros [->|H] E.
+  - rewrite E. discriminate.
+  - destruct (f z); [discriminate | auto].
+Qed.
+
+Lemma dfs_complete ok : (forall c, rt_params (cd_route c) = [] -> ok c = true) ->
+  forall segs cs c, In c cs -> rmatch (cd_pat c) segs = true -> rt_params (cd_route c) = [] ->
+  dfs ok cs segs <> None.
+Proof.
+  intro Hok. induction segs as [|s r IH]; intros cs c Hin Hm Hp.
+  - simpl. unfold first_ok. destruct (cd_pat c) as [|[l|n|n] [|? p]] eqn:Ep; try discriminate.
+    apply (find_exists ok _ c); [|apply Hok; assumption].
+    apply (in_filter_map_intro at_end cs c c Hin). unfold at_end. rewrite Ep. reflexivity.
+  - cbn [dfs]. destruct (cd_pat c) as [|[l|n|n] p] eqn:Ep; try discriminate.
+    + cbn [rmatch] in Hm. apply andb_true_iff in Hm as [M1 M2].
+      set (c' := {| cd_rule := cd_rule c; cd_route := cd_route c; cd_pat := p; cd_caps := cd_caps c |}).
+      assert (H : dfs ok (filter_map (step_lit s) cs) r <> None).
+      { apply (IH _ c'); [|exact M2|exact Hp]. apply (in_filter_map_intro _ cs c c' Hin).
+        unfold step_lit. rewrite Ep, M1. reflexivity. }
+      destruct (dfs ok (filter_map (step_lit s) cs) r); [discriminate | congruence].
+    + cbn [rmatch] in Hm. apply andb_true_iff in Hm as [M1 M2]. apply negb_true_iff in M1.
+      destruct (dfs ok (filter_map (step_lit s) cs) r); [discriminate|]. rewrite M1.
+      set (c' := {| cd_rule := cd_rule c; cd_route := cd_route c; cd_pat := p; cd_caps := (cd_caps c ++ [(n, s)])%list |}).
+      assert (H : dfs ok (filter_map (step_wild s) cs) r <> None).
+      { apply (IH _ c'); [|exact M2|exact Hp]. apply (in_filter_map_intro _ cs c c' Hin).
+        unfold step_wild. rewrite Ep. reflexivity. }
+      destruct (dfs ok (filter_map (step_wild s) cs) r); [discriminate | congruence].
+    + destruct p as [|? p]; [|discriminate]. cbn [rmatch] in Hm. apply negb_true_iff in Hm.
+      destruct (dfs ok (filter_map (step_lit s) cs) r); [discriminate|].
+      destruct (if is_empty s then None else dfs ok (filter_map (step_wild s) cs) r); [discriminate|].
+      rewrite Hm. unfold first_ok.
+      set (c' := {| cd_rule := cd_rule c; cd_route := cd_route c; cd_pat := [];
+                    cd_caps := (cd_caps c ++ [(n, join_with "/" (s :: r))])%list |}).
+      apply (find_exists ok _ c'); [|apply Hok; exact Hp].
+      apply (in_filter_map_intro _ cs c c' Hin). unfold step_catch_all. rewrite Ep. reflexivity.
+Qed.
+
 (** the precondition answer: if every path expression that matches the path as it is
     spelled belongs to an `off` rule, a path with an encoded slash is answered with
     the precondition error — or with "no rule" when nothing accepts it and no default
     rule is configured *)
 Theorem precondition_view fx rules dflt host q p :
-  is_empty p = false -> enc_slash p = true ->
+  has_prefix "/" p = true -> enc_slash p = true ->
   (fx2 fx = true \/ contains "%2f" p = false) ->
   (forall r t, In r rules -> In t (r_routes r) -> rmatch (rt_pat t) (segs_of p) = true -> r_setting r = Off) ->
   serve_view fx rules dflt (mk_view host p q) = Precondition \/
-  (dflt = false /\ serve_view fx rules dflt (mk_view host p q) = NoRule).
+  (dflt = false /\ serve_view fx rules dflt (mk_view host p q) = NoRule /\
+   forall r t, In r rules -> In t (r_routes r) -> rmatch (rt_pat t) (segs_of p) = true -> rt_params t <> []).
 Proof.
-  intros Ne Es G2 Hoff. unfold serve_view. set (u := mk_view host p q).
+  intros Hp Es G2 Hoff. unfold serve_view. set (u := mk_view host p q).
+  assert (Ne : is_empty p = false) by (destruct p; [discriminate | reflexivity]).
   assert (Er : u_rawpath u = p) by reflexivity.
   assert (L : lc_ok (fx2 fx) p = true).
   { unfold lc_ok. destruct G2 as [->| ->]; [reflexivity | apply orb_true_r]. }
@@ -2255,7 +2305,17 @@ Proof.
   destruct (find_rule fx rules u) as [c|] eqn:F.
   - destruct (find_rule_route fx rules u c p Er Ne F) as (Hin & Hrt & Hm & Hc).
     rewrite (Hoff _ _ Hin Hrt Hm). unfold execute. rewrite Hs. left; reflexivity.
-  - destruct dflt; [left; unfold execute; rewrite Hs; reflexivity | right; auto].
+  - destruct dflt; [left; unfold execute; rewrite Hs; reflexivity | right]. splits; auto.
+    intros r t Hr Ht Hm Hnil. revert F. unfold find_rule, lookup_path. rewrite Er, Ne.
+    unfold segs_of in Hm. destruct (path_segs p) as [segs|] eqn:Sp.
+    + rewrite dfs_fast_eq.
+      assert (Hok : forall c, rt_params (cd_route c) = [] -> cand_ok fx p c = true).
+      { intros c Hc. unfold cand_ok, route_ok. rewrite Hc. reflexivity. }
+      apply (dfs_complete _ Hok segs (cands_of rules)
+        {| cd_rule := r; cd_route := t; cd_pat := rt_pat t; cd_caps := [] |}); auto.
+      unfold cands_of. apply in_flat_map. exists r. split; [assumption|]. apply in_map_iff. exists t. auto.
+    + destruct p as [|c0 p0]; [discriminate|]. rewrite has_prefix_cons in Hp. apply andb_true_iff in Hp as [Hp _].
+      apply ascii_eqb_true in Hp. subst c0. discriminate.
 Qed.
 
 (** ** the three entry points produce [mk_view] *)
@@ -2283,17 +2343,6 @@ Proof.
 Qed.
 
 (** ** entry-level statements for the tree as it is now *)
-
-Definition accepted_spec (rules : list rule) (p rid : string) (cs : caps) (up : option hurl) : Prop :=
-  exists r t raw,
-    In r rules /\ r_id r = rid /\ In t (r_routes r) /\
-    rmatch (rt_pat t) (segs_of p) = true /\
-    route_caps (rt_pat t) (segs_of p) = Some raw /\
-    cs = map (fun kv => (fst kv, spec_capture (r_setting r) (snd kv))) raw /\
-    (r_setting r = Off -> enc_slash p = false) /\
-    (r_setting r = NoDecode -> forall b, r_backend r = Some b ->
-       wfenc (expected_wire b p) -> valid_encoded (expected_wire b p) = true -> valid_encoded p = true ->
-       exists u', up = Some u' /\ wire_path u' = expected_wire b p).
 
 Theorem accepted_http rules dflt host q p rid cs up :
   p <> "*" -> guard_F4 p = false ->
